@@ -126,3 +126,21 @@ func Harness_C08_caster_race() {
 		verifReach("quiescent")
 	})
 }
+
+// C08 caster_two_senders: two racing Sends and one registered receiver: exactly one Send delivers (returns
+// 1), the other finds nobody registered (returns 0); neither panics; the state ends at zero.
+func Harness_C08_caster_two_senders() {
+	x := NewChanCaster(make(chan int))
+	verifAtomic(func() { x.Add(1) })
+	var sent [2]int
+	var got int
+	go func() { sent[0] = x.Send(7) }()
+	go func() { sent[1] = x.Send(8) }()
+	go func() { got = <-x.C }()
+	verifFinally(func() {
+		verifAssert(sent[0]+sent[1] == 1, "exactly_one_send_delivers")
+		verifAssert((sent[0] == 1 && got == 7) || (sent[1] == 1 && got == 8), "receiver_gets_the_value_of_the_counting_send")
+		verifAssert(x.Add(0) == 0, "state_zero_after_sends")
+		verifReach("quiescent")
+	})
+}
